@@ -10,13 +10,25 @@ HOOKS = dict(
 ENGINES = [
     dict(name="vf", path="vf/", serves_properties=["C20"],
          kind_free_text="Hypothesis / exhaustive-enumeration runner with sharding over 16 processes, bucketed findings, replay files"),
-    dict(name="cgit", path="vf/cgit.py", serves_properties=["C20"],
+    dict(name="sandbox", path="vf/sandbox.py", serves_properties=["C03"],
+         kind_free_text="E1: crash-isolating forked children (death attributed to the exact case), RLIMIT_AS memory allowance"),
+    dict(name="rustext", path="vf/rustext.py", serves_properties=["C03"],
+         kind_free_text="rebuilds the PyO3 crates from the working tree (cargo --offline) and loads them ahead of stale .so files; pure-Python twin loader"),
+    dict(name="cgit", path="vf/cgit.py", serves_properties=["C20", "C03"],
          kind_free_text="hermetic C git 2.39.5 subprocess oracle (differential)"),
 ]
 NOTES = ("Run ./check <ID> quick|thorough from /verif.  Exit 0/1/2 = held / VIOLATION / harness error.  "
          "known_findings.json lists repaired defects (status fixed, regression inputs) and open findings.")
 NOT_APPLICABLE = {}
 CHECKS = {
+    "C03": dict(
+        level="exploration",
+        engine="vf+sandbox",
+        technique="exhaustive short deltas + Hypothesis-generated pairs and structured mutants, run in crash-isolating forked children under an address-space allowance; oracle = strict patch-delta reference (self-tested against git) + slice-decomposition predicate + C git as encoder and decoder",
+        text="Round trip target==apply(create(base,target)) for encoder x decoder in {python, rust, C git}; every byte string up to length 4 (thorough 5) over an opcode-covering alphabet, all size headers up to 5 (thorough 8) varint bytes and thousands of structured mutants are decoded by both decoders: outcome must be declared-length output made of base/insert slices or ApplyDeltaError; process death, panic, other exceptions or >64 MiB + 8x(inputs+output) of address-space growth are violations. Exhaustive for the stated bounds; sampling beyond.",
+        design_ref="DESIGN.md §4 C03, §3 E1",
+        note="trusts the 60-line reference decoder (validated against git index-pack each run) and RLIMIT_AS accounting; Rust extension rebuilt from the working tree (debug profile)",
+    ),
     "C20": dict(
         level="exploration",
         technique="exhaustive enumeration of short values over a special-character alphabet + Hypothesis operation sequences; round-trip and differential oracle against git config",
